@@ -2,6 +2,7 @@ package drv
 
 import (
 	"fmt"
+	"hash/fnv"
 	"strconv"
 	"strings"
 
@@ -21,7 +22,16 @@ func sig(res rt.Result, rec *rt.Recorder) string {
 	} else {
 		fmt.Fprintf(&b, "ok value=%s ", render(res.Value))
 	}
-	fmt.Fprintf(&b, "calls=%v", renderCalls(rec))
+	calls := renderCalls(rec)
+	if len(calls) > 60 {
+		h := fnv.New64a()
+		for _, c := range calls {
+			h.Write([]byte(c))
+		}
+		fmt.Fprintf(&b, "calls=%d (hash %x)", len(calls), h.Sum64())
+	} else {
+		fmt.Fprintf(&b, "calls=%v", calls)
+	}
 	return b.String()
 }
 
@@ -72,7 +82,11 @@ func init() {
 			for i, in := range inputs {
 				rec := &rt.Recorder{}
 				res := im.NewParser().Parse(seqTypes(im, in), rec, 0, len(in)+4)
-				fresh[i] = fr{sig(res, rec), res.Err != nil}
+				fs := sig(res, rec)
+				if res.ErrObj != nil && im.ErrorString != nil {
+					fs += " text=" + im.ErrorString(res.ErrObj)
+				}
+				fresh[i] = fr{fs, res.Err != nil}
 			}
 			triples, _ := spec.Opt["triples"].(bool)
 			run := func(hist [][2]int, last int) {
@@ -83,6 +97,13 @@ func init() {
 				for _, h := range hist {
 					rec := &rt.Recorder{FailAt: h[1]}
 					r1 := p.Parse(seqTypes(im, inputs[h[0]]), rec, 0, len(inputs[h[0]])+4)
+					if r1.ErrObj != nil && im.ErrorString != nil {
+						// the caller looks at the error before parsing again; rendering it twice must give the same text
+						if a, b := im.ErrorString(r1.ErrObj), im.ErrorString(r1.ErrObj); a != b {
+							st.violation("C16", it.ID+" errtext "+strings.Join(inputs[h[0]], " "), fmt.Sprintf("rendering the error of Parse([%s]) twice gives %q then %q", strings.Join(inputs[h[0]], " "), a, b),
+								map[string]any{"tokens": inputs[h[0]], "first": a, "second": b})
+						}
+					}
 					hs += fmt.Sprintf("[%s]fail@%d ", strings.Join(inputs[h[0]], " "), h[1])
 					switch {
 					case r1.Panic != "":
@@ -98,9 +119,13 @@ func init() {
 				rec := &rt.Recorder{}
 				res := p.Parse(seqTypes(im, inputs[last]), rec, 0, len(inputs[last])+4)
 				st.add("histories", 1)
-				if got := sig(res, rec); got != fresh[last].s {
+				got := sig(res, rec)
+				if res.ErrObj != nil && im.ErrorString != nil {
+					got += " text=" + im.ErrorString(res.ErrObj)
+				}
+				if got != fresh[last].s {
 					st.violation("C16", it.ID+" "+hs+"["+strings.Join(inputs[last], " ")+"]",
-						fmt.Sprintf("after %son the same parser, Parse([%s]) gives %s; a fresh parser gives %s", hs, strings.Join(inputs[last], " "), got, fresh[last].s),
+						fmt.Sprintf("after %son the same parser (each error rendered by the caller), Parse([%s]) gives %s; a fresh parser gives %s", hs, strings.Join(inputs[last], " "), got, fresh[last].s),
 						map[string]any{"history": hs, "tokens": inputs[last], "got": got, "fresh": fresh[last].s})
 				}
 				o2 := "S"
